@@ -1,4 +1,5 @@
 import FlodymProofs.Props.C12
+import FlodymProofs.Props.C12Stages
 #print axioms Flodym.C12.duplicate_refused
 #print axioms Flodym.C12.unknown_item_refused
 #print axioms Flodym.C12.missing_refused
@@ -14,3 +15,6 @@ import FlodymProofs.Props.C12
 #print axioms Flodym.C12.allow_missing_fills_zero
 #print axioms Flodym.C12.default_keeps_values
 #print axioms Flodym.C12.setValuesFromDf_all_or_nothing
+#print axioms Flodym.C12.missing_column_refused
+#print axioms Flodym.C12.several_value_columns_refused
+#print axioms Flodym.C12.no_value_column_refused
